@@ -92,8 +92,16 @@ impl Fields {
     }
 
     pub(super) fn reference_bases(&self) -> ReferenceBases<'_> {
+        const MISSING: &[u8] = b".";
+
         let src = &self.site_buf[self.bounds.reference_bases_range()];
-        ReferenceBases::new(src)
+
+        // An empty typed string is the missing allele, as in `read_ref_alt`.
+        if src.is_empty() {
+            ReferenceBases::new(MISSING)
+        } else {
+            ReferenceBases::new(src)
+        }
     }
 
     pub(super) fn alternate_bases(&self) -> AlternateBases<'_> {
@@ -286,6 +294,37 @@ mod tests {
         assert_eq!(fields.bounds.reference_bases_range(), 29..30);
         assert_eq!(fields.bounds.alternate_bases_range(), 30..32);
         assert_eq!(fields.bounds.filters_range(), 32..34);
+
+        Ok(())
+    }
+
+    #[test]
+    fn test_alleles_with_empty_typed_strings() -> io::Result<()> {
+        use noodles_vcf::variant::record::AlternateBases as _;
+
+        let mut fields = Fields::default();
+
+        *fields.site_buf_mut() = build_site_buf(
+            2,
+            &[
+                0x07, // ids = []
+                0x07, // ref = ""
+                0x07, // alt = ""
+                0x00, // filters = []
+            ],
+        );
+
+        fields.index()?;
+
+        assert_eq!(fields.reference_bases().as_ref(), b".");
+
+        assert_eq!(
+            fields
+                .alternate_bases()
+                .iter()
+                .collect::<io::Result<Vec<_>>>()?,
+            ["."]
+        );
 
         Ok(())
     }
